@@ -502,9 +502,9 @@ pub fn property() -> Property {
         ],
         minimise: None,
         subs: vec![
-            Sub::Bytes(BytesSub { name: "arg-order", f: arg_order, max_len: 200, quick: Budget { threads: 4, cases: 2000 }, thorough: Budget { threads: 16, cases: 60_000 }, keep_unreproducible: false }),
-            Sub::Bytes(BytesSub { name: "apply-expref", f: apply_expref, max_len: 600, quick: Budget { threads: 4, cases: 2000 }, thorough: Budget { threads: 16, cases: 60_000 }, keep_unreproducible: false }),
-            Sub::Bytes(BytesSub { name: "history", f: history, max_len: 600, quick: Budget { threads: 8, cases: 1500 }, thorough: Budget { threads: 16, cases: 80_000 }, keep_unreproducible: false }),
+            Sub::Bytes(BytesSub { name: "arg-order", f: arg_order, max_len: 200, quick: Budget { threads: 4, cases: 6000 }, thorough: Budget { threads: 16, cases: 60_000 }, keep_unreproducible: false }),
+            Sub::Bytes(BytesSub { name: "apply-expref", f: apply_expref, max_len: 600, quick: Budget { threads: 4, cases: 6000 }, thorough: Budget { threads: 16, cases: 60_000 }, keep_unreproducible: false }),
+            Sub::Bytes(BytesSub { name: "history", f: history, max_len: 600, quick: Budget { threads: 8, cases: 4500 }, thorough: Budget { threads: 16, cases: 80_000 }, keep_unreproducible: false }),
         ],
     }
 }
